@@ -366,23 +366,35 @@ def bounded(tier, seed):
         if not ok:
             viol('format/parse path %r count=%r' % (segs, cnt), '%r -> %r' % (txt, back), 'the same segments and count')
     # ---- (c) depth / bundle / fragment independence through the real server
-    tags = {'A': ('INT', 10), 'B': ('DINT', 600), 'S': ('SINT', 4)}
+    numpath = lambda c, i, a: {'segment': [{'class': c}, {'instance': i}, {'attribute': a}]}
+    tags = {'A': ('INT', 10), 'B': ('DINT', 600), 'S': ('SINT', 4), 'N1': ('INT', 2, numpath(0x93, 3, 1)), 'N2': ('DINT', 1, numpath(0x93, 3, 2))}
     pool = ['A[0-2]', 'A[9]', 'A[1-1]=5', 'A[2-3]=7,8', 'B[0-3]', 'B[1-1]=(DINT)70000', 'A[8-12]', 'A[10]', 'A[3-3]=(DINT)1', 'A[0-9]', 'B[0-599]', 'S[0-3]=(SINT)1,2,3,4',
-            'S[1]', 'B[100-101]=(DINT)5,6', 'B[598-601]']
+            'S[1]', 'B[100-101]=(DINT)5,6', 'B[598-601]',
+            # every kind of operation the client issues: Get / Set Attribute Single, Get Attributes All, and the generic service-code request
+            '@0x93/3/1', '@0x93/3/1[0-1]=(INT)11,12', '@0x93/3/2[0-0]=(DINT)70001', '@0x93/3/2', '@0x93/3/9', '@0x93/3',
+            {'method': 'get_attribute_single', 'path': '@0x93/3/1', 'tag_type': 0xc3, 'elements': 2}, {'method': 'get_attribute_single', 'path': '@0x93/3/9'},
+            {'method': 'get_attributes_all', 'path': '@0x93/3', 'data_size': 12}, {'method': 'get_attribute_single', 'path': '@0x93/3/2'},
+            {'method': 'set_attribute_single', 'path': '@0x93/3/1', 'tag_type': 0xc3, 'data': [31, 32], 'elements': 2},
+            {'method': 'service_code', 'code': 0x0e, 'path': '@0x93/3/1', 'data_size': 8},
+            {'method': 'service_code', 'code': 0x10, 'path': '@0x93/3/1', 'data': [21, 22], 'tag_type': 0xc3, 'elements': 2, 'data_size': 4},
+            {'method': 'service_code', 'code': 0x0e, 'path': '@0x93/3/7', 'data_size': 8},
+            {'method': 'service_code', 'code': 0x0e, 'path': '@0x93/3/2'}]
     rounds = 4 if tier == 'quick' else 30
     for r in range(rounds):
         if len(violations) >= 8:
             break
         ops = [rng.choice(pool) for _ in range(rng.choice([2, 5, 9]))]
+        if r == 0:
+            ops = pool[15:] + ['A[0-2]']                # the first round: one of every non-tag operation kind
         results = {}
         for depth, multiple, fragment in ((0, 0, False), (1, 0, False), (2, 0, False), (5, 0, False), (1, 100, False), (2, 250, False), (1, 500, False), (1, 0, True), (3, 250, True)):
             ev += 1
-            distinct.add((tuple(ops), depth, multiple, fragment))
+            distinct.add((repr(ops), depth, multiple, fragment))
             out = []
             with netsim.Server(tags) as srv:
                 try:
                     with client.connector(host='127.0.0.1', port=srv.port, timeout=3.0) as conn:
-                        parsed = list(client.parse_operations(ops, fragment=fragment))
+                        parsed = list(client.parse_operations([dict(o) if isinstance(o, dict) else o for o in ops], fragment=fragment))
                         if depth == 0:
                             gen = conn.synchronous(operations=parsed, multiple=multiple, timeout=3.0)
                         else:
@@ -405,7 +417,7 @@ def bounded(tier, seed):
                 rule='(a) operation strings generated from a token grammar (tag / dotted tag / @c/i/a with hex, [i], [a-b], *n, +offset aligned and misaligned, (TYPE) casts, value lists '
                      'of matching / short / long length; (e) get_attribute.proxy.read_details over attributes of different types at several depth / bundle settings) x fragment on/off: parse_operations == reference parser (incl. which strings must be refused); (b) format_path -> '
                      'parse_path_elements round trip on generated segment lists; (c) seeded operation lists (valid, out-of-range, wrong type, multi-fragment reads) through '
-                     'the real server over TCP: synchronous vs pipeline depth 1/2/5 vs Multiple Service Packet limits 100/250/500 vs fragment: one result per operation, identical '
+                     'the real server over TCP (tag reads and writes, Get / Set Attribute Single, Get Attributes All and generic service-code operations): synchronous vs pipeline depth 1/2/5 vs Multiple Service Packet limits 100/250/500 vs fragment: one result per operation, identical '
                      'statuses, values and final tag contents; (d) operation lists with route paths changing along the list, bundled: the route_path passed to each Multiple Service Packet equals that of every operation in it; distinct = distinct cases',
                 exhaustive=False, samples=samples, violations=violations[:20], seed=seed)
 
